@@ -64,12 +64,15 @@ def run(m):
         open(dst, 'w', encoding='latin-1').write('\n'.join(L))
         env = dict(os.environ, VERIF_REPO=tmp, VERIF_EVIDENCE_DIR=os.path.join(tmp, 'ev'))
         rcs = []
+        why = ''
         for pid in a.pid.split(','):
             p = subprocess.run([os.path.join(VERIF, 'check'), pid], env=env, stdout=subprocess.PIPE, stderr=subprocess.STDOUT)
             rcs.append(p.returncode)
             if p.returncode == 1:
                 break
-        return (m, 1 if 1 in rcs else (2 if all(r == 2 for r in rcs) else 0))
+            if p.returncode == 2:
+                why = (p.stdout.decode('latin-1').strip().split('\n') or [''])[-1][:160]
+        return (m + (why,), 1 if 1 in rcs else (2 if 2 in rcs else 0))
     finally:
         shutil.rmtree(tmp, ignore_errors=True)
 
@@ -83,3 +86,5 @@ print('%d mutants: %d reported, %d silent, %d not analysable (do not compile / a
 for (m, rc) in res:
     if rc == 0:
         print('SILENT %s:%d [%s]  %s   =>   %s' % (a.file, m[0], m[1], lines[m[0] - 1].strip()[:90], m[2].strip()[:90]))
+    elif rc != 1 and 'error:' not in m[3] and 'compil' not in m[3]:
+        print('BROKEN %s:%d [%s]  %s   =>   %s   ## %s' % (a.file, m[0], m[1], lines[m[0] - 1].strip()[:70], m[2].strip()[:70], m[3]))
